@@ -25,6 +25,7 @@ from fractions import Fraction as F
 
 import core
 import fracexec
+import s3_util as S3
 from fracexec import frac_str
 
 MODULE = 'UwgVerif.Props.C14'
@@ -58,6 +59,9 @@ def rq(rng, lo, hi, den=None):
     return F(rng.randint(int(round(lo * den)), int(round(hi * den))), den)
 
 
+REFUSED = ['condtype=steam', 'condtype=', 'condtype=AIRWATER', 'cop=-1', 'cop=-1/1000', 'coolcap=-5', 'heateff=-1/10',
+           'glazing_ratio=3/2', 'glazing_ratio=-1/100', 'shgc=-1/5', 'shgc=11/10', 'floor_height=-3', 'infil=-1',
+           'vent=-1/2', 'u_value=-2', 'int_heat_flat=3/2', 'int_heat_frad=-1/4', 'int_heat_night=-1']
 MODES = ['cool', 'cool-lim', 'heat', 'heat-lim', 'idle', 'free', 'any', 'crossed']
 
 
@@ -180,7 +184,23 @@ def gen_case(rng, mode=None):
     c['tCeil'] = rng.choice([base + rq(rng, -spread, 2 * spread, 4), c['indoorTemp'],
                              c['indoorTemp'] + 1])
     c['mode'] = mode
+    # how the Building object is made (all routes the package offers; the model sees only the meaning):
+    #  condText / condVia: condenser type text as given by the user - any letter case the setter accepts -
+    #    through the constructor or assigned afterwards through the setter;
+    #  copNominal / copVia: the nominal `cop` attribute differs from the COP in force (`cop_adj`):
+    #    'frozen' = constructor(cop = copAdj) freezes cop_adj, then `b.cop = copNominal` is assigned;
+    #    'direct' = constructor(cop = copNominal), then `b.cop_adj = copAdj` is assigned.
+    c['condText'] = c['cond'] if rng.random() < 0.4 else S3.mixed_case(rng, c['cond'])
+    c['condVia'] = rng.choice(['ctor', 'setter'])
+    c['copNominal'] = rng.choice([c['copAdj'], rq(rng, 1.5, 6, 10), rq(rng, 1.5, 6, 10)])
+    c['copVia'] = rng.choice(['frozen', 'direct'])
+    #  refused: assignments the Building setters must refuse, attempted (under try/except) after construction
+    #    and before the step - a refused value must leave no trace in the step
+    c['refused'] = ';'.join(rng.sample(REFUSED, rng.choice([0, 1, 2, 3])))
     return c
+
+
+STRKEYS = ('cond', 'mode', 'condText', 'condVia', 'copVia', 'refused')
 
 
 def edge_cases(rng):
@@ -232,16 +252,31 @@ def impl_bem(pkg, c):
     """Run the REAL Building.BEMCalc over exact rationals. Returns dict of attributes or 'err …'
     or 'skip …' (exception inside psychrometrics, which is outside the C14 model)."""
     Building = pkg.building.Building
+    text = c.get('condText', c['cond'])
+    via_setter = c.get('condVia') == 'setter'
+    nominal = c.get('copNominal', c['copAdj'])
+    frozen = c.get('copVia', 'direct') == 'frozen'
     try:
         b = Building(c['floorHeight'], c['intHeatNight'], c['intHeatDay'], c['intHeatFRad'],
                      c['intHeatFLat'], c['infil'], c['vent'], c['glazingRatio'], c['uValue'],
-                     c['shgc'], c['cond'], c['copAdj'], c['coolcap'], c['heateff'],
-                     F(293))
+                     c['shgc'], c['cond'] if via_setter else text, c['copAdj'] if frozen else nominal,
+                     c['coolcap'], c['heateff'], F(293))
+        if via_setter:
+            b.condtype = text
+        if frozen:
+            b.cop = nominal            # cop_adj stays what the constructor froze
+        else:
+            b.cop_adj = c['copAdj']
     except AssertionError:
         return 'err assert'
     except ZeroDivisionError:
         return 'err zerodiv'
-    b.cop_adj = c['copAdj']
+    for item in [x for x in c.get('refused', '').split(';') if x]:
+        attr, val = item.split('=')
+        try:
+            setattr(b, attr, val if attr == 'condtype' else F(val))
+        except AssertionError:
+            pass
     b.heat_cap = c['heatCap']
     b.cool_setpoint_day = c['coolSetDay']
     b.cool_setpoint_night = c['coolSetNight']
@@ -430,13 +465,54 @@ LIVE_RUNS_THOROUGH = [
 ]
 
 
+def setup_constructed_custom(condtype, cop_after, bldtype='studio'):
+    """Half of the stock is a custom reference building made with the real constructors; its condenser type is
+    spelled as given and its nominal COP is re-assigned after construction (cop != cop_adj)."""
+    def setup(m, uwg_pkg):
+        bem, sch = S3.constructed_custom(uwg_pkg, condtype=condtype, cop=3.2, coolcap=90.0, bldtype=bldtype)
+        if cop_after is not None:
+            bem.building.cop = cop_after
+        m.bld = [(bldtype, 'new', 0.5), ('largeoffice', 'pst80', 0.5)]
+        m.ref_bem_vector, m.ref_sch_vector = m._check_reference_data([bem], [sch])
+    return setup
+
+
+def setup_library_custom(cop_after, condtype=None):
+    """The shipped largeoffice/pst80 handed back as custom reference building with `building.cop` (and
+    optionally `building.condtype`) assigned afterwards - the pattern of tests/test_UWG.py."""
+    def setup(m, uwg_pkg):
+        bem, sch = S3.custom_from_library(uwg_pkg)
+        bem.building.cop = cop_after
+        if condtype:
+            bem.building.condtype = condtype
+        m.day = 2                      # a weekday for the model: the office is occupied and cooled
+        m.ref_bem_vector, m.ref_sch_vector = m._check_reference_data([bem], [sch])
+    return setup
+
+
+CUSTOM_RUNS = [
+    ('custom-constructed-air-lowercase', 'SGP_Singapore.486980_IWEC.epw', 'initialize_singapore.uwg', 1, None, 0,
+     setup_constructed_custom('air', 2.4)),
+    ('custom-library-cop-reassigned', 'SGP_Singapore.486980_IWEC.epw', 'initialize_singapore.uwg', 1, None, 0,
+     setup_library_custom(2.6)),
+    ('custom-constructed-Water', 'SGP_Singapore.486980_IWEC.epw', 'initialize_singapore.uwg', 6, None, 0,
+     setup_constructed_custom('Water', 4.5, bldtype='lab')),
+]
+CUSTOM_RUNS_THOROUGH = [
+    ('custom-library-Air-autosize', 'SGP_Singapore.486980_IWEC.epw', 'initialize_singapore.uwg', 6, None, 1,
+     setup_library_custom(5.5, 'Air')),
+    ('custom-constructed-aIR-toronto-jul', 'CAN_ON_Toronto.716240_CWEC.epw', 'initialize_toronto.uwg', 7, '5A', 0,
+     setup_constructed_custom('aIR', None)),
+]
+
+
 def state_of_building(b, UCM, BEM, forc, parameter, simTime):
     """The C14 input record of a live (float) BEMCalc call, read from outside before the call."""
     return dict(
         floorHeight=b.floor_height, intHeatNight=b.int_heat_night, intHeatDay=b.int_heat_day,
         intHeatFRad=getattr(b, 'int_heat_f_rad', 0.0), intHeatFLat=b.int_heat_flat,
         infil=b.infil, vent=b.vent, glazingRatio=b.glazing_ratio, uValue=b.u_value, shgc=b.shgc,
-        cond=b.condtype, copAdj=b.cop_adj, coolcap=b.coolcap, heateff=b.heateff,
+        cond=b.condtype.upper(), copAdj=b.cop_adj, coolcap=b.coolcap, heateff=b.heateff,
         heatCap=b.heat_cap, coolSetDay=b.cool_setpoint_day, coolSetNight=b.cool_setpoint_night,
         heatSetDay=b.heat_setpoint_day, heatSetNight=b.heat_setpoint_night,
         indoorTemp=b.indoor_temp, indoorHum=b.indoor_hum,
@@ -463,7 +539,9 @@ def live_runs(chk, runs, ndays, on_bem=None, extra_wrappers=None):
     import uwg as uwg_pkg
     import uwg.building as bmod
     done = {}
-    for label, epw, par, month, zone, autosize in runs:
+    for run_ in runs:
+        label, epw, par, month, zone, autosize = run_[:6]
+        setup = run_[6] if len(run_) > 6 else None
         epw_p = os.path.join(tests, 'epw', epw)
         par_p = os.path.join(tests, 'parameters', par)
         if not (os.path.exists(epw_p) and os.path.exists(par_p)):
@@ -491,6 +569,8 @@ def live_runs(chk, runs, ndays, on_bem=None, extra_wrappers=None):
                 m.autosize = autosize
                 if zone:
                     m.zone = zone
+                if setup:
+                    setup(m, uwg_pkg)
                 m.generate()
             except Exception as e:
                 raise core.Infra('live run %s could not be set up: %s: %s' % (
@@ -563,6 +643,26 @@ def run(chk):
                'energy use and rejected-heat statements evaluated on the exact result of the '
                'real BEMCalc for every generated state that returns', mismatches=bad,
                branches=branches)
+    routes = {}
+    for c, r in keep:
+        if isinstance(r, str) or not classify_result(c, r).startswith('cool'):
+            continue
+        for tag, on in (('condtype-not-upper-case', c['condText'] != c['cond']),
+                        ('condtype-via-setter', c['condVia'] == 'setter'),
+                        ('cop!=cop_adj(cop assigned after construction)',
+                         c['copVia'] == 'frozen' and c['copNominal'] != c['copAdj']),
+                        ('cop!=cop_adj(cop_adj assigned)', c['copVia'] == 'direct' and c['copNominal'] != c['copAdj']),
+                        ('after-refused-assignments', bool(c['refused']))):
+            routes[tag + ':' + c['cond']] = routes.get(tag + ':' + c['cond'], 0) + (1 if on else 0)
+    chk.direct('construction-routes(cooling states)', sum(routes.values()), sum(routes.values()),
+               'cooling states of the exact tie by the way the real Building object was made: condenser type text in '
+               'lower / mixed case (constructor or setter), nominal cop re-assigned after the constructor froze '
+               'cop_adj, cop_adj assigned directly, out-of-range assignments to the Building (condtype, cop, coolcap, '
+               'heateff, ratios, ...) refused under try/except before the step - the model and the oracle see the '
+               'meaning only (AIR / WATER, the COP in force, the accepted values)', branches=routes)
+    for tag, cnt in routes.items():
+        if cnt < 10:
+            raise core.Infra('generator no longer builds cooling states via %s often enough (%d)' % (tag, cnt))
     for need in ('cool-unlimited-AIR', 'cool-unlimited-WATER', 'cool-limited-AIR',
                  'cool-limited-WATER', 'heat-unlimited', 'heat-limited', 'idle', 'free-cooling'):
         if branches.get(need, 0) < 10:
@@ -586,7 +686,7 @@ def run(chk):
         msg = oracle(c, r, tol=1e-9)
         if msg and len(live_bad) < 3:
             live_bad.append((label, c, msg))
-    runs = LIVE_RUNS + (LIVE_RUNS_THOROUGH if chk.tier == 'thorough' else [])
+    runs = LIVE_RUNS + CUSTOM_RUNS + (LIVE_RUNS_THOROUGH + CUSTOM_RUNS_THOROUGH if chk.tier == 'thorough' else [])
     done = live_runs(chk, runs, 1 if chk.tier == 'quick' else 3, on_bem=on_bem)
     if done is None:
         chk.notes.append('live float runs skipped: no tests/epw + tests/parameters found')
@@ -598,7 +698,10 @@ def run(chk):
         n = sum(done.values())
         chk.direct('C14-oracle(live float simulations)', n, n,
                    'every BEMCalc call of 1-day (thorough: 3-day) real simulations %s, wrapped '
-                   'from outside; same oracle with relative tolerance 1e-9' % sorted(done),
+                   'from outside; same oracle with relative tolerance 1e-9; the custom-* runs simulate a stock with '
+                   'a custom reference building (made with the real constructors with condtype "air" / "Water", or '
+                   'the shipped largeoffice handed back) whose `cop` was assigned after construction, so that '
+                   'cop != cop_adj' % sorted(done),
                    mismatches=len(live_bad), branches=live_br)
     chk.measurements['sensWaste_nonneg_hypotheses'] = reference_library_ranges()
     chk.measurements['sensWaste_nonneg_hypotheses']['live_runs'] = hyp
@@ -675,7 +778,7 @@ def replay(chk, path):
     """bin/check C14 --replay <file>: re-run one recorded state against the working tree."""
     import json
     v = json.load(open(path))
-    c = {k: (x if k in ('cond', 'mode') else F(x)) for k, x in v['case'].items()}
+    c = {k: (x if k in STRKEYS else F(x)) for k, x in v['case'].items()}
     pkg = fracexec.load()
     r = impl_bem(pkg, c)
     msg = None if isinstance(r, str) else oracle(c, r)
